@@ -110,6 +110,10 @@ def evaluate(constant_string: Union[str, None]) -> Constant:
                 value = json.loads(constant_string, parse_constant=str)
             except ValueError:  # includes json.JSONDecodeError
                 value = constant_string
+            else:
+                if value is None or isinstance(value, bool):
+                    # JSON literals padded with whitespace are symbols, too
+                    value = constant_string
 
     if not (value is None or isinstance(value, (str, int, float))):
         raise ConstantError(f'invalid constant: {value!r}')
